@@ -31,10 +31,14 @@ def exc_info(asm, e):
     return info
 
 
-def observe(asm, src, compress=False, include_dirs=None, tap=True):
+def observe(asm, src, compress=False, include_dirs=None, tap=True, preseed=None):
     """Run the real assemble() once; record result or exception, label/constant tables, blob stream."""
     o = Obs()
     o.labels, o.constants = {}, {}
+    if preseed:
+        # a caller-supplied table that already holds entries (re-used from an earlier build, or external symbols)
+        o.labels.update(preseed.get('labels', {}))
+        o.constants.update(preseed.get('constants', {}))
     o.blobs = None
     o.hook_reached = False
     orig = getattr(asm, 'resolve_blobs', None)
@@ -80,12 +84,12 @@ class Layout:
 FENCE = '__bbvf%d:'
 
 
-def layout(asm, lines, compress=False, force_fences=False):
+def layout(asm, lines, compress=False, force_fences=False, eol='\n', preseed=None):
     """Assemble `lines` (one item per line; any line may also be blank/comment) and attribute output bytes
     to source lines.  Primary: blob stream (P2).  Fallback P2': a fence label before every line."""
     lay = Layout()
-    src = '\n'.join(lines) + '\n'
-    obs = observe(asm, src, compress, tap=not force_fences)
+    src = eol.join(lines) + eol
+    obs = observe(asm, src, compress, tap=not force_fences, preseed=preseed)
     lay.obs = obs
     lay.chunks = None
     lay.order_ok = True
@@ -133,7 +137,7 @@ def layout(asm, lines, compress=False, force_fences=False):
         fl.append(FENCE % i)
         fl.append(ln)
     fl.append(FENCE % n)
-    o2 = observe(asm, '\n'.join(fl) + '\n', compress, tap=False)
+    o2 = observe(asm, eol.join(fl) + eol, compress, tap=False, preseed=preseed)
     if not o2.ok or o2.out != obs.out:
         lay.why = 'fence-label rendering did not reproduce the build'
         return lay
